@@ -58,7 +58,7 @@ func (a *Config) MergeSpoc(d deviceconf.Config) deviceconf.Config {
 	}
 	sort.Strings(warnings)
 	for _, w := range warnings {
-		errlog.Warning(w)
+		errlog.Warning("%s", w)
 	}
 	return a
 }
